@@ -356,6 +356,21 @@ def _combined_columns(mcs, n_model, n_global, params):
     return out
 
 
+def full_rank_everywhere(spec) -> bool:
+    """every dataset's combined matrix (and global matrix) has full column rank and modest condition at every index
+    for the spec's current parameter values — the property quantifies over full-column-rank matrices only"""
+    P = spec["parameters"]
+    for ds in spec["datasets"]:
+        n_model, n_global = len(ds["model_axis"]), len(ds["global_axis"])
+        mats = _combined_columns(ds["mcs"], n_model, n_global, P)
+        if ds.get("gmcs"):
+            mats = mats + _combined_columns(ds["gmcs"], n_global, 1, P)
+        for m in mats:
+            if m.shape[1] > m.shape[0] or np.linalg.matrix_rank(m) < m.shape[1] or np.linalg.cond(m) > 2000:
+                return False
+    return True
+
+
 def _ensure_rank(rng, mcs, n_model, n_global, params):
     for _ in range(30):
         mats = _combined_columns(mcs, n_model, n_global, params)
